@@ -99,11 +99,54 @@ RULE = ("cases = scenarios printed by TLC (GenInvoke: retry settings x request s
         "fails or a filter finishes the request.")
 
 
+def run_tunnel_counters(ctx):
+    """WebSocket (ws, wss) and TLS-offload stream tunnels also count against the backend (findBackend: IncConnNum, connect
+    failure -> DecConnNum, tunnel end -> DecConnNum).  cmd/tunnel records the counter hooks while it runs tunnel scripts against a
+    cluster whose first backend refuses connections; the same Layer P applies (TraceInvoke: NegativeCount, NonZeroAtQuiescence)."""
+    q = ctx.tier == "quick"
+    cases = [{"proto": p, "earlyC": "1", "earlyB": "none", "ops": [{"op": "c2b", "size": "small"}, {"op": "b2c", "size": "small"}], "closer": cl}
+             for p in ("ws", "wss", "stream") for cl in ("c", "b")] * (1 if q else 6)
+    for i, c in enumerate(cases):
+        c = cases[i] = dict(c)
+        c["id"] = i + 1
+    res = ctx.harness("tunnel", ["tunnel-run"], cases=cases, timeout=900)
+    summ = [x for x in res if x.get("summary")]
+    if not summ or summ[0]["cases"] != len(cases) or any("_fatal" in x or "_harness_exit" in x for x in res):
+        raise vlib.MachineryError("tunnel harness failed: %s" % res[-2:])
+    events = []
+    for c in cases:
+        events.append({"ev": "req", "cid": c["id"], "retryMax": 9, "crossRetry": 0, "retryGet": False, "get": True, "nobody": True})
+        for x in res:
+            if x.get("cid") == c["id"] and "cev" in x:
+                if x["cev"] == "quiet":
+                    events.append({"ev": "quiet", "cid": c["id"], "conns": x["conns"]})
+                else:
+                    events.append({"ev": x["cev"], "cid": c["id"], "sub": "A", "kind": "tunnel", "n": x["n"]})
+    ninc = sum(1 for e in events if e["ev"] == "inc")
+    if ninc < len(cases):
+        raise vlib.MachineryError("tunnel counter hooks saw only %d increments for %d tunnels" % (ninc, len(cases)))
+    trace = "".join(json.dumps(e, separators=(",", ":")) + "\n" for e in events)
+    r = ctx.tlc("Proxy", "TraceInvoke", "TraceInvoke.cfg", mode="trace", timeout=900,
+                extra_files={"trace.ndjson": trace}, count=False)
+    rep = [c for c in r.cases if c.get("done")]
+    if not r.ok or not rep or rep[0]["consumed"] != len(events):
+        raise vlib.MachineryError("TraceInvoke (tunnels) did not complete: %s %s" % (r.error or r.violation, r.out[-600:]))
+    by_id = {c["id"]: c for c in cases}
+    for b in rep[0]["bad"]:
+        c = by_id[b["cid"]]
+        mine = [e for e in events if e["cid"] == b["cid"]]
+        ctx.report("%s/tunnel/%s" % (b["why"], c["proto"]), "tunnel script %s; counter events %s" % (json.dumps(c), str(mine)[:1200]),
+                   case=c, harness="tunnel", cmd="tunnel-run")
+    ctx.traces(len(cases))
+    ctx.cov["tunnel_counter_events"] = {"tunnels": len(cases), "increments": ninc}
+
+
 def check_c07(ctx):
     mc(ctx)
-    ctx.cov["rule"] = RULE
+    ctx.cov["rule"] = RULE + (" Plus WebSocket (ws, wss) and TLS-offload stream tunnels through a cluster whose first backend refuses "
+                              "connections: the counter hooks are recorded and validated against the same Layer P.")
     run(ctx, scenarios(ctx), C07)
-    ctx.assumptions.append("HTTP/1 requests through the reverse proxy; WebSocket/stream tunnel counters are covered by C47's harness")
+    run_tunnel_counters(ctx)
 
 
 def check_c08(ctx):
@@ -117,6 +160,11 @@ PROPS = {"C07": check_c07, "C08": check_c08}
 
 
 def replay(ctx, pid, rep):
+    if rep.get("cmd") == "tunnel-run":
+        run_tunnel_counters(ctx)
+        rc = ctx.finish()
+        print("replay: %s" % ("violation reproduced" if rc == 1 else "no violation on the current tree"))
+        return rc
     run(ctx, [dict(rep["case"])], C07 | C08)
     rc = ctx.finish()
     print("replay: %s" % ("violation reproduced" if rc == 1 else "no violation on the current tree"))
